@@ -1196,19 +1196,27 @@ fn get_nonterminals_resolution_order(
 
     let not_depended_on_vars = get_not_depended_on_nonterminals(&dependency_graph);
     if not_depended_on_vars.is_empty() {
-        // Take any vertex and compute a sample cycle to illustrate to the user
-        let any_vertex = dependency_graph.keys().next().unwrap();
-        path.push((
-            *any_vertex,
-            nonterminal_definitions.get(any_vertex).unwrap().lhs_span,
-        ));
-        traverse_nonterminal_dependencies_dfs(
-            *any_vertex,
-            &dependency_graph,
-            &mut path,
-            &mut visited,
-            &mut result,
-        )?;
+        // Every vertex is depended on, so there is a cycle.  Compute a sample one to illustrate to
+        // the user: it is found from a vertex that lies on it (or leads to it), which needn't be
+        // the first one tried -- a vertex that is merely depended on by the cycle leads nowhere.
+        let vertices: Vec<Ustr> = dependency_graph.keys().copied().collect();
+        for vertex in vertices {
+            if visited.contains(&vertex) {
+                continue;
+            }
+            path.push((
+                vertex,
+                nonterminal_definitions.get(&vertex).unwrap().lhs_span,
+            ));
+            traverse_nonterminal_dependencies_dfs(
+                vertex,
+                &dependency_graph,
+                &mut path,
+                &mut visited,
+                &mut result,
+            )?;
+            path.clear();
+        }
         unreachable!();
     }
 
